@@ -1,9 +1,33 @@
 """Per-property configuration of bin/check."""
 
 PROPS = {
-    "C06": {"quick": 3000, "thorough": 120000, "model": ["SpecKeys"], "pending": "in progress"},
-    "C07": {"quick": 2400, "thorough": 80000, "model": ["SpecKeys"], "pending": "in progress"},
-    "C08": {"quick": 2400, "thorough": 80000, "model": ["SpecKeys"], "pending": "in progress"},
+    "C06": {
+        "quick": 3000, "thorough": 120000, "model": ["SpecKeys"],
+        "rule": "one file (bash/ruby/js) with 1-3 sibling keep-sorted blocks; the first block's lines enumerate every sequence of length 0..3 over a 7-9 symbol alphabet (ordered, equal, prefix-related, indented, trailing-blank, blank, numeric-looking incl. 0/-0/1e3) and sample lengths 4-5 and longer; direction in {asc,desc,'',ASC,Desc,' ',dEsC} x {no pattern, group pattern, plain pattern} x {lexicographic, numeric}; Unicode keys; content on the tag's line. Non-trivial = a block with at least two non-blank lines; distinct = distinct file text.",
+        "technique": 'Rocq proof over a Gallina model of keep_sorted.rs (scan reports exactly the first strictly out-of-order key; order lemmas; direction parsing) + differential correspondence (vm_compute) against the implementation',
+        "level_text": 'Theorems in coq/props/C06.v characterise the scan for key sequences of any length (no violation iff all adjacent pairs in order; the reported key is the first out-of-order one; equal neighbours and signed zeros are in order; code-point order; direction parsing). The model is tied to the code by running both on the enumerated alphabet on every run; the executable specification also checks that the reported range delimits the offending key in the file.',
+        "level_note": "Trusted: Coq kernel + vm_compute; the hand-written model (validated by the correspondence run); the harness; the regex crate and str::parse::<f64> as oracles (their answers are tabulated per case by the harness with the same crate versions); tree-sitter comment spans (from the implementation via the hook). No axioms.",
+        "trusted_base": ["regex crate (match and group ranges are an oracle table per case)", "Rust std f64 parsing (bit patterns are an oracle table per case)", "tree-sitter grammars (comment spans from the implementation through the hook)"],
+        "assumptions": ["regex and f64-parse answers are taken from the same crate versions the implementation links"],
+    },
+    "C07": {
+        "quick": 2400, "thorough": 80000, "model": ["SpecKeys"],
+        "rule": 'as C06 with keep-unique: alphabets with repeated keys, keys differing only in indentation or trailing blanks, differences outside the regex group, blank and non-matching lines x {no regex, group regex, plain regex}. Non-trivial = a block with at least two non-blank lines.',
+        "technique": 'Rocq proof over a Gallina model of keep_unique.rs (seen-set invariant: no violation iff NoDup keys; reported key is the first repeat) + differential correspondence',
+        "level_text": 'Theorems in coq/props/C07.v hold for key sequences of any length; the model is tied to the code by the enumerated-alphabet correspondence on every run.',
+        "level_note": "Trusted: Coq kernel + vm_compute; the hand-written model (validated by the correspondence run); the harness; the regex crate and str::parse::<f64> as oracles (their answers are tabulated per case by the harness with the same crate versions); tree-sitter comment spans (from the implementation via the hook). No axioms.",
+        "trusted_base": ["regex crate (match and group ranges are an oracle table per case)", "Rust std f64 parsing (bit patterns are an oracle table per case)", "tree-sitter grammars (comment spans from the implementation through the hook)"],
+        "assumptions": ["regex and f64-parse answers are taken from the same crate versions the implementation links"],
+    },
+    "C08": {
+        "quick": 2400, "thorough": 80000, "model": ["SpecKeys"],
+        "rule": 'as C06 with line-pattern: six anchored/unanchored patterns x alphabet of matching, non-matching, indented, blank, partially matching and Unicode lines. Non-trivial = a block with at least two non-blank lines.',
+        "technique": 'Rocq proof over a Gallina model of line_pattern.rs (first failing non-blank trimmed line, regex as oracle) + differential correspondence',
+        "level_text": 'Theorems in coq/props/C08.v hold for any number of lines with the regex engine as an oracle; the model is tied to the code by the enumerated-alphabet correspondence on every run.',
+        "level_note": "Trusted: Coq kernel + vm_compute; the hand-written model (validated by the correspondence run); the harness; the regex crate and str::parse::<f64> as oracles (their answers are tabulated per case by the harness with the same crate versions); tree-sitter comment spans (from the implementation via the hook). No axioms.",
+        "trusted_base": ["regex crate (match and group ranges are an oracle table per case)", "Rust std f64 parsing (bit patterns are an oracle table per case)", "tree-sitter grammars (comment spans from the implementation through the hook)"],
+        "assumptions": ["regex and f64-parse answers are taken from the same crate versions the implementation links"],
+    },
     "C09": {
         "quick": 1200, "thorough": 40000,
         "model": ["SpecC09"],
